@@ -46,7 +46,11 @@ func c16(c *Ctx) {
 			case 0:
 				ctx.MOVQ(operand.U32(1), reg.RAX)
 			case 1:
-				ctx.Comment("x")
+				if rng.Chance(30) {
+					ctx.SYSCALL() // a (system) call in the function does not change the frame rules
+				} else {
+					ctx.Comment("x")
+				}
 			case 2:
 				if rng.Chance(30) && fattr&attr.NOFRAME == 0 { // a NOFRAME function may not write the base pointer (C15)
 					ctx.MOVQ(operand.U32(1), reg.RBP)
@@ -80,6 +84,8 @@ func c16(c *Ctx) {
 			sizes = append(sizes, int64(sz))
 			offs = append(offs, int64(m.Disp))
 		}
+		emit()
+		emit()
 		emit()
 		ctx.RET()
 		f, err := ctx.Result()
